@@ -16,6 +16,42 @@ SPECIALS = ["\x00", "\x01", "\x1f", "\x7f", "\x80", "\x9f", "\xa0", "\xff", "\u0
             "\U00010000", "\U0001f600", "\U0010ffff"]
 
 
+def mounted_store_class():
+    """A concrete MountedStore whose 'remote' side is a bytes buffer with a modified time, written against the public
+    MountedStore interface (copy_from_local / copy_to_local); the library's own test helper is used when it is there."""
+    try:
+        from uberjob._testing.test_mounted_file_store import TestMountedFileStore
+
+        return TestMountedFileStore
+    except Exception:
+        pass
+    import datetime as dt
+
+    from uberjob.stores import MountedStore
+
+    class BufferMountedStore(MountedStore):
+        def __init__(self, create_store):
+            super().__init__(create_store)
+            self.blob = None
+            self.mtime = None
+
+        def copy_from_local(self, local_path):
+            with open(local_path, "rb") as f:
+                self.blob = f.read()
+            self.mtime = dt.datetime.utcnow()
+
+        def copy_to_local(self, local_path):
+            if self.blob is None:
+                raise Exception("nothing stored")
+            with open(local_path, "wb") as f:
+                f.write(self.blob)
+
+        def get_modified_time(self):
+            return self.mtime
+
+    return BufferMountedStore
+
+
 def strict_eq(a, b):
     """Equal and of the same type, all the way down."""
     if type(a) is not type(b):
@@ -99,7 +135,7 @@ def binary_values(rng):
 
 def configs():
     from uberjob import stores as S
-    from uberjob._testing.test_mounted_file_store import TestMountedFileStore
+    TestMountedFileStore = mounted_store_class()
 
     out = []
     for pk in ("str", "pathlib"):
@@ -137,7 +173,7 @@ def run_config(arg):
     """One store configuration over its whole domain; returns traces (chunks of values) and per-value failures."""
     (kind, pk, kw, dom), seed, chunk = arg
     from uberjob import stores as S
-    from uberjob._testing.test_mounted_file_store import TestMountedFileStore
+    TestMountedFileStore = mounted_store_class()
 
     rng = random.Random(f"c12-{seed}-{kind}-{kw}")
     values = domain(dom, rng)
@@ -246,7 +282,7 @@ def siblings_concurrent(arg):
 
     rng = random.Random(seed)
     strat = E.make_strategy(stratspec, rng)
-    files = detsched.ENGINE_FILES + ("uberjob/stores/_file_store.py",)
+    files = detsched.ENGINE_FILES + ("uberjob/stores/",)
     sched = detsched.Scheduler(strat, preempt_files=files, opcode=False, step_budget=400000)
     res = {"fails": [], "preemptions": 0}
     with common.scratch("vf-c12s-") as d:
@@ -286,13 +322,13 @@ def mounted_concurrent(arg):
     seed, nstores, stratspec = arg
     import uberjob
     from uberjob import stores as S
-    from uberjob._testing.test_mounted_file_store import TestMountedFileStore
+    TestMountedFileStore = mounted_store_class()
 
     from .. import detsched, engine_exec as E
 
     rng = random.Random(seed)
     strat = E.make_strategy(stratspec, rng)
-    files = detsched.ENGINE_FILES + ("uberjob/stores/_mounted_store.py", "uberjob/_testing/test_mounted_file_store.py", "uberjob/stores/_file_store.py")
+    files = detsched.ENGINE_FILES + ("uberjob/stores/", "uberjob/_testing/test_mounted_file_store.py")
     sched = detsched.Scheduler(strat, preempt_files=files, opcode=False, step_budget=400000)
     kinds = [S.JsonFileStore, S.PickleFileStore, S.TextFileStore, S.BinaryFileStore]
     stores, values = [], []
